@@ -267,3 +267,15 @@ CONTRACTS.append(Contract(
     ensures=lambda c: [('is-json-key', c.res == J.key_str(c.key))],
     raises=[ExcSpec('TypeError', when=lambda c: Not(J.keyable(c.key)))],
 ))
+
+# ---------------------------------------------------------------------------------------------
+# _normalize_str (round 2, fix for the surrogate-pair defect): TRUSTED.  In the proofs strings are
+# uninterpreted and `json.loads(json.dumps(s)) == s` is an axiom of the string model, so the
+# normalisation is the identity there; what it does on strings that hold surrogate pairs is checked
+# by the bounded stand-in json_laws against the real json module.
+CONTRACTS.append(Contract(
+    M + '_normalize_str', props=['C18', 'C07', 'C16'], trusted=True,
+    params={'value': STR}, returns=STR,
+    ensures=lambda c: [('identity-on-the-modelled-strings', c.res == c.value)],
+    notes='combines surrogate pairs like json does; identity on every other string (the string '
+          'model of the proofs has no surrogate pairs): bounded stand-in json_laws'))
